@@ -137,14 +137,40 @@ def dirEntry (v : View) (d : Nat) : Out Entry :=
   else if ty = 13 then pgoEntry v d >>= fun r => .ok (.pgo r)         -- IMAGE_DEBUG_TYPE_POGO
   else .ok (.unknown (dirData v d))
 
+/-! field offsets of IMAGE_DEBUG_CV_INFO_PDB20 { CvSignature, Offset, TimeDateStamp, Age } and
+IMAGE_DEBUG_CV_INFO_PDB70 { CvSignature, Signature: GUID, Age } (`image.rs`); `dirs_layout` prints them next to
+`offset_of!` of the current source -/
+def cv20OffOffset : Nat := 4
+def cv20OffTimeDateStamp : Nat := 8
+def cv20OffAge : Nat := 12
+def cv70OffSignature : Nat := 4
+def cv70OffAge : Nat := 20
+
 /-- `CodeView::pdb_file_name`, `CodeView::age`, `CodeView::format` -/
 def CodeView.name : CodeView → Ref | .cv20 _ n => n | .cv70 _ n => n
 def CodeView.image : CodeView → Ref | .cv20 i _ => i | .cv70 i _ => i
+-- src: wrap/debug.rs:CodeView::age    (`image.Age`)
 def CodeView.age (b : Bytes) : CodeView → Nat
-  | .cv20 i _ => le32 b (i.off + 12)
-  | .cv70 i _ => le32 b (i.off + 20)
+  | .cv20 i _ => le32 b (i.off + cv20OffAge)
+  | .cv70 i _ => le32 b (i.off + cv70OffAge)
 /-- `format()`: the four signature bytes -/
 def CodeView.format (cv : CodeView) : Ref := ⟨cv.image.off, 4, 1⟩
+/-- `image.CvSignature` (both variants, +0) -/
+def CodeView.cvSignature (b : Bytes) (cv : CodeView) : Nat := le32 b cv.image.off
+/-- `CodeView::Cv70 { image, .. }` → `&image.Signature`: the GUID (16 bytes, `align_of::<GUID>() = 4`) inside
+IMAGE_DEBUG_CV_INFO_PDB70; a `Cv20` has none (what `Debug` / `Serialize` print as "signature") -/
+def CodeView.guidRef : CodeView → Option Ref
+  | .cv20 _ _ => none
+  | .cv70 i _ => some ⟨i.off + cv70OffSignature, 16, 4⟩
+/-- `CodeView::Cv20 { image, .. }` → `image.TimeDateStamp`; a `Cv70` has none (what `Debug` / `Serialize` print
+as "time_date_stamp") -/
+def CodeView.timestamp (b : Bytes) : CodeView → Option Nat
+  | .cv20 i _ => some (le32 b (i.off + cv20OffTimeDateStamp))
+  | .cv70 _ _ => none
+/-- `CodeView::Cv20 { image, .. }` → `image.Offset` -/
+def CodeView.offset (b : Bytes) : CodeView → Option Nat
+  | .cv20 i _ => some (le32 b (i.off + cv20OffOffset))
+  | .cv70 _ _ => none
 
 -- src: debug.rs:Debug::pdb_file_name — `find_map` over the entries: the first entry that decodes as CodeView
 def pdbFileNameFrom (v : View) (t : Ref) : Nat → Nat → Option Ref
@@ -167,26 +193,62 @@ def pgoIterStart (image : Ref) : Nat × Nat :=
   let n := image.len / 4
   if n ≥ 1 then (image.off + 4, n - 1) else (image.off, n)
 
--- src: wrap/debug.rs:PgoIter::next, iterated until the first `None` (what `for sec in pgo` sees)
+-- src: wrap/debug.rs:PgoIter::next — ONE call: the answer and the iterator's state afterwards.  The state of a
+-- `PgoIter` is the window `self.image` of u32 words: (buffer offset, number of words).
+def pgoNext (b : Bytes) (st : Nat × Nat) : Out (Option PgoItem × (Nat × Nat)) :=
+  let off := st.1
+  let n := st.2
+  if n ≥ 3 then
+    let rva := le32 b off                                   -- self.image[0]
+    let size := le32 b (off + 4)                            -- self.image[1]
+    match cstrFromBytes b (off + 8) (4 * (n - 2)) with      -- CStr::from_bytes(bytes(&self.image[2..]))?
+    | none => .ok (none, st)                                -- `?`: `None`, `self.image` not advanced
+    | some name =>
+      let len := (name.len - 1) / 4                         -- name.len() >> 2  (len() excludes the NUL)
+      if 2 + len + 1 > n then .panic "PgoIter::next:image[2+len+1..]"
+      else .ok (some ⟨rva, size, name⟩, (off + 4 * (2 + len + 1), n - (2 + len + 1)))
+  else .ok (none, st)
+
+/-- `next` iterated until the first `None` (what `for sec in pgo` sees) -/
 def pgoLoop (b : Bytes) : Nat → Nat → Nat → Out (List PgoItem)
   | 0, _, _ => .diverge
   | fuel+1, off, n =>
-    if n ≥ 3 then
-      let rva := le32 b off                                   -- self.image[0]
-      let size := le32 b (off + 4)                            -- self.image[1]
-      match cstrFromBytes b (off + 8) (4 * (n - 2)) with      -- CStr::from_bytes(bytes(&self.image[2..]))?
+    pgoNext b (off, n) >>= fun r =>
+      match r.1 with
       | none => .ok []
-      | some name =>
-        let len := (name.len - 1) / 4                         -- name.len() >> 2  (len() excludes the NUL)
-        if 2 + len + 1 > n then .panic "PgoIter::next:image[2+len+1..]"
-        else
-          pgoLoop b fuel (off + 4 * (2 + len + 1)) (n - (2 + len + 1)) >>= fun rest =>
-          .ok (⟨rva, size, name⟩ :: rest)
-    else .ok []
+      | some item => pgoLoop b fuel r.2.1 r.2.2 >>= fun rest => .ok (item :: rest)
 
-def pgoItems (b : Bytes) (image : Ref) : Out (List PgoItem) :=
-  let (off, n) := pgoIterStart image
-  pgoLoop b (n + 1) off n
+/-- the items a `PgoIter` in state `st` will still yield -/
+def pgoItemsFrom (b : Bytes) (st : Nat × Nat) : Out (List PgoItem) := pgoLoop b (st.2 + 1) st.1 st.2
+
+def pgoItems (b : Bytes) (image : Ref) : Out (List PgoItem) := pgoItemsFrom b (pgoIterStart image)
+
+/-! `PgoIter` implements `next` only; the other calls it offers are the provided methods of
+`core::iter::Iterator`, loops over `next` (as for `IterBlocks`, Model/Relocs.lean) -/
+
+-- src: core::iter::Iterator::nth (provided): `self.advance_by(n).ok()?; self.next()`, where `advance_by` calls
+-- `next` up to `n` times and gives up at the first `None`
+def pgoNth (b : Bytes) : Nat → Nat × Nat → Out (Option PgoItem × (Nat × Nat))
+  | 0, st => pgoNext b st
+  | k+1, st =>
+    pgoNext b st >>= fun r =>
+      match r.1 with
+      | none => .ok (none, r.2)
+      | some _ => pgoNth b k r.2
+
+-- src: core::iter::Iterator::count (provided): `self.fold(0, |n, _| n + 1)`, a loop over `next`
+def pgoCountLoop (b : Bytes) : Nat → Nat × Nat → Nat → Out Nat
+  | 0, _, _ => .diverge
+  | fuel+1, st, acc =>
+    pgoNext b st >>= fun r =>
+      match r.1 with
+      | none => .ok acc
+      | some _ => pgoCountLoop b fuel r.2 (acc + 1)
+
+def pgoCount (b : Bytes) (st : Nat × Nat) : Out Nat := pgoCountLoop b (st.2 + 1) st 0
+
+-- src: core::iter::Iterator::size_hint (provided): `(0, None)`
+def pgoSizeHint (_st : Nat × Nat) : Nat × Option Nat := (0, none)
 
 /-! ### TLS directory -/
 
